@@ -63,6 +63,23 @@ vs = c_inference_pareto_front(parse_belief_base(sys.argv[1]))
 print('RESULT' + json.dumps([[int(x) for x in v] for v in vs]))
 """
 
+# the same for a base built programmatically under given integer keys (argv[1]: {"sig", "keys", "base": trees})
+FRONT_KEYED = r"""
+import sys, json, warnings
+warnings.filterwarnings('ignore')
+sys.path[:0] = [%r, %r]
+import os
+os.environ['INFOCF_LOGLEVEL'] = 'ERROR'
+import model as M
+from inference.c_revision import c_inference_pareto_front
+d = json.loads(sys.argv[1])
+def tup(x):
+    return tuple(tup(y) for y in x) if isinstance(x, list) else x
+bb = M.make_base(d['sig'], {k: (tup(B), tup(A)) for k, (B, A) in zip(d['keys'], d['base'])})
+vs = c_inference_pareto_front(bb)
+print('RESULT' + json.dumps([[int(x) for x in v] for v in vs]))
+"""
+
 
 def _exec_life(sc):
     """Run one life-cycle scenario on the real classes; returns the trace (env + events)."""
@@ -80,6 +97,13 @@ def _exec_life(sc):
     try:
         keys = sc.get("keys") or list(range(1, len(sc["base"]) + 1))
         bb = M.make_base(sig, {k: c for k, c in zip(keys, sc["base"])}) if sc["base"] else None
+        # impact vectors are ordered by conditional key (ascending); the trace speaks about positions in sc["base"]
+        order = sorted(keys)
+        by_pos = lambda vec: [int(vec[order.index(k)]) for k in keys] if len(vec) == len(keys) else [int(x) for x in vec]
+        if sc["kind"] == "c":
+            import z3
+
+            z3.set_param("timeout", 120000)  # a constraint system that z3 cannot finish becomes a refusal instead of a hang
         objs = []
         # ---- construct
         try:
@@ -90,7 +114,7 @@ def _exec_life(sc):
                 o = impl.with_limit(120, PreOCF.init_random_min_c_rep, bb)
             else:
                 o = PreOCF.init_custom({wstr(w, n): sc["custom"][w - 1] for w in range(1, nw + 1)}, signature=list(sig))
-            evs.append({"ev": "construct", "outcome": "ok", "aux": aux_of(o), "impacts": [int(x) for x in getattr(o, "_impacts", [])]})
+            evs.append({"ev": "construct", "outcome": "ok", "aux": aux_of(o), "impacts": by_pos(getattr(o, "_impacts", []))})
             objs.append(o)
         except ValueError as e:
             evs.append({"ev": "construct", "outcome": "refused", "aux": False, "impacts": [], "msg": str(e)[:200]})
@@ -150,17 +174,20 @@ def _exec_life(sc):
                     evs.append({"ev": "condexist", "o": oi, "worlds": M.models(f, sig), "result": [[int(w, 2) + 1, (-1 if r is None else int(r))] for w, r in d.items()], "formula": M.render(f)})
                 elif k == "cop":
                     B, A = step[2]
-                    a = impl.ask(M.make_base(sig, {i + 1: c for i, c in enumerate(sc["base"])}), M.make_queries({1: (B, A)}), "c", "rc2", False)
+                    a = impl.ask(M.make_base(sig, {k_: c for k_, c in zip(keys, sc["base"])}), M.make_queries({1: (B, A)}), "c", "rc2", False)
                     if not a["raised"]:
                         evs.append({"ev": "cop", "cond": M.cond_vec(B, A, sig), "result": a["obs"][0] == "T", "text": M.render_cond(B, A)})
                 elif k == "front":
                     src = FRONT % (REPO,)
                     text = M.render_base(sig, sc["base"])
+                    if sc.get("keys"):
+                        src = FRONT_KEYED % (REPO, os.path.dirname(os.path.dirname(os.path.abspath(__file__))))
+                        text = json.dumps({"sig": list(sig), "keys": keys, "base": sc["base"]})
                     try:
                         p = subprocess.run([sys.executable, "-W", "ignore", "-c", src, text], capture_output=True, text=True, timeout=step[2])
                         line = [x for x in p.stdout.splitlines() if x.startswith("RESULT")]
                         if line:
-                            vecs_ = json.loads(line[0][6:])
+                            vecs_ = [by_pos(v) for v in json.loads(line[0][6:])]
                             mx = max([max(v) for v in vecs_ if v] + [0])
                             nb = len(sc["base"])
                             bound = max(1 << max(0, nb - 1), mx) + 1
@@ -346,6 +373,10 @@ def gen_scenarios(rng, kinds, n, persistence):
             if not c:
                 continue
             sc.update(base=[(x["B"], x["A"]) for x in c["base"]])
+            if rng.random() < 0.4:  # keys other than 1..n in insertion order: permuted, shifted, with gaps, 0-based
+                n_ = len(sc["base"])
+                sc["keys"] = rng.choice([list(range(n_, 0, -1)), list(range(2, n_ + 1)) + [1], sorted(rng.sample(range(1, n_ + 4), n_)), rng.sample(range(1, n_ + 4), n_),
+                                         list(range(2, n_ + 2)), list(range(0, n_))])
         else:
             ranks = [rng.choice([0, 0, 1, 2, 3, 4]) for _ in range(nw)] if rng.random() < 0.7 else [rng.choice([0, 2, 9, 10, 11, 30]) for _ in range(nw)]
             sc["custom"] = ranks
